@@ -130,6 +130,7 @@ type Machine struct {
 	timers    []*chanV
 	ptrIDs    map[*value]int
 	inInit    int
+	racyScope string
 	randInts  []*Term
 	forkSites map[string]int
 	randDraws int
@@ -688,6 +689,7 @@ func (m *Machine) resetPath() {
 	m.timers = nil
 	m.ptrIDs = map[*value]int{}
 	m.inInit = 0
+	m.racyScope = ""
 	m.randInts = nil
 	m.randDraws = 0
 	m.mapOrderNondet = false
